@@ -41,10 +41,13 @@ def confirm(c, nd, nr):
     obs = {'dev': nd.request(c['request']), 'release': nr.request(c['request'])}
     d = obs['dev']
     if c['key'].endswith('panic'): return any(o.get('kind') in ('panic', 'abort', 'hang') for o in obs.values()), obs
-    if c['key'] == 'c03:lexer-accepts-invalid':
-        # the lexer accepted; natively only compile is observable: reproduced if compile succeeds, or fails *after* lexing (offset behind the offending lexeme is not decidable here): accept ok only
-        return d.get('kind') == 'ok', obs
-    if c['key'] == 'c03:lexer-rejects-valid' or c['key'] == 'c03:lexer-wrong-tokens': return True, obs
+    if c['key'].startswith('c03:lexer-'):
+        # lexer-level differences are confirmed through the public API: the reference pipeline says what compile must do with the text alone and embedded
+        # in sentence templates (a number token alone is never a sentence, `a[N]` is)
+        from . import pubconfirm as PC, c09 as C09
+        r = PC.confirm_literal_value(c['witness']['expr'], nd)
+        if r is not None and r[0]: return True, r[1]
+        return PC.confirm_text(c['witness']['expr'], nd, nr, open_exts=C09.OPEN_EXTS)
     if c['key'].startswith('c03:rejects'): return d.get('kind') == 'compile-err', obs
     if c['key'].startswith('c03:'): return d.get('kind') == 'ok', obs
     return False, obs
